@@ -243,3 +243,16 @@ def canon_cond(cond):
             t, p = intern(('cmp', _POS[t[1]], t[2], t[3])), not p
         out.append((t, p))
     return out
+
+
+def isinstance_value(prog, t, subject, C):
+    """Truth value of the guard atom `t` when `subject` is an instance of exactly
+    the class C (None: of no class of the package): isinstance(subject, K) and
+    isinstance(subject, (K1, K2, ...)) have definite answers from the class
+    hierarchy; anything else is unknown (None)."""
+    if t[0] == 'call' and t[1] == 'isinstance' and len(t[2]) == 2 and not t[3] and \
+            t[2][0] == subject:
+        ks = t[2][1][1] if t[2][1][0] == 'tuple' else (t[2][1],)
+        if all(k[0] == 'classref' for k in ks):
+            return C is not None and any(prog.is_subclass(C, k[1]) for k in ks)
+    return None
